@@ -32,22 +32,30 @@ def load(prop):
 def run_one(prop, m, keep_output=False):
     scratch = tempfile.mkdtemp(prefix='pyvc-mut-%s-' % prop)
     t0 = time.time()
-    res = {"id": m.get('id'), "file": m['file'], "why": m.get('why', '')}
+    res = {"id": m.get('id'), "file": m.get('file') or m.get('patch'), "why": m.get('why', '')}
     try:
         shutil.copytree(os.path.join(REPO, 'python'), os.path.join(scratch, 'python'),
                         ignore=shutil.ignore_patterns('__pycache__', '*.pyc', '*.egg-info'))
-        path = os.path.join(scratch, m['file'])
-        src = open(path).read()
-        n = src.count(m['old'])
-        if n != 1:
-            res.update(status='pattern-missing', detail="text occurs %d times" % n)
-            return res
-        open(path, 'w').write(src.replace(m['old'], m['new']))
-        try:
-            compile(open(path).read(), path, 'exec')
-        except SyntaxError as err:
-            res.update(status='bad-mutant', detail="does not compile: %s" % err)
-            return res
+        if m.get('patch'):
+            # a whole diff (a seeded change kept under seeded/<id>/patch.diff), applied with git apply in the scratch copy
+            r = subprocess.run(['git', 'apply', '--unsafe-paths', '--directory', scratch, os.path.abspath(m['patch'])],
+                               cwd=scratch, capture_output=True, text=True)
+            if r.returncode != 0:
+                res.update(status='pattern-missing', detail="patch does not apply: %s" % r.stderr[-300:])
+                return res
+        else:
+            path = os.path.join(scratch, m['file'])
+            src = open(path).read()
+            n = src.count(m['old'])
+            if n != 1:
+                res.update(status='pattern-missing', detail="text occurs %d times" % n)
+                return res
+            open(path, 'w').write(src.replace(m['old'], m['new']))
+            try:
+                compile(open(path).read(), path, 'exec')
+            except SyntaxError as err:
+                res.update(status='bad-mutant', detail="does not compile: %s" % err)
+                return res
         env = dict(os.environ, PYVC_REPO=scratch, PYVC_OUT=os.path.join(scratch, 'out'), PYVC_NO_MUTANTS='1',
                    PYTHONPATH=os.path.join(scratch, 'python'), PYTHONDONTWRITEBYTECODE='1')
         cmd = [sys.executable, '-m', 'pyvc.check', prop, '--tier', 'quick']
